@@ -98,14 +98,15 @@ def run_case(ctx, ids, subset, crashes):
     _COUNTER[0] += 1
     name = "run%d" % _COUNTER[0]
     outs = F.out_dirs(job["root"], name, subset)
-    desc = lambda: "ids=%r outputs=%r crash positions=%r (uninterrupted run makes %d writes: %r)" % (ids, subset, crashes, W, ref_writes)
+    smx = (len(subset) + sum(crashes)) % 2 == 1      # every other case also passes --skipp-missing-xml (all XML inputs exist)
+    desc = lambda: "ids=%r outputs=%r crash positions=%r skipp-missing-xml=%r (uninterrupted run makes %d writes: %r)" % (ids, subset, crashes, smx, W, ref_writes)
     try:
         inside = False
         first = True
         history = []
         for c in crashes:
             before = incomplete_pages(ids, subset, outs) if not first else list(ids)
-            status, inj = F.run_main(F.argv_for(job, outs, skip=not first), F.Injector(crash_at=c))
+            status, inj = F.run_main(F.argv_for(job, outs, skip=not first, skip_missing_xml=smx), F.Injector(crash_at=c))
             history.append((c, status, list(inj.writes)))
             ctx.check(status in ("ok", "crash"), "run_fails", lambda: "status %s; history %r; " % (status, history) + desc())
             if not first:
@@ -122,7 +123,7 @@ def run_case(ctx, ids, subset, crashes):
             first = False
         # final resume(s): the batch must complete
         before = incomplete_pages(ids, subset, outs) if not first else list(ids)
-        status, inj = F.run_main(F.argv_for(job, outs, skip=not first))
+        status, inj = F.run_main(F.argv_for(job, outs, skip=not first, skip_missing_xml=smx))
         history.append((None, status, list(inj.writes)))
         ctx.check(status == "ok", "resume_does_not_exit_cleanly", lambda: "status %s; history %r; stdout tail %r; " % (status, history, inj.stdout[-300:]) + desc())
         if not first:
@@ -130,7 +131,7 @@ def run_case(ctx, ids, subset, crashes):
         diff = F.diff_snapshots(ref_snap, F.snapshot(outs))
         ctx.check(not diff, "outputs_differ_after_resume", lambda: "%r; history %r; " % (diff, history) + desc())
         # one more resume: nothing left to do, exits cleanly, processes nothing
-        status, inj = F.run_main(F.argv_for(job, outs, skip=True))
+        status, inj = F.run_main(F.argv_for(job, outs, skip=True, skip_missing_xml=smx))
         ctx.check(status == "ok", "resume_with_nothing_to_do_fails", lambda: "status %s; " % status + desc())
         ctx.check(not inj.processed, "complete_page_processed_again", lambda: "a resume over a complete folder processed %r; " % (inj.processed,) + desc())
         ctx.check(not F.diff_snapshots(ref_snap, F.snapshot(outs)), "outputs_changed_by_idle_resume", desc)
